@@ -29,13 +29,33 @@ package kvql
 //@ define monoChk() Bool = forall r Ref :: old(chk(r)) ==> chk(r)
 //@ define keptOps() Bool = forall r Ref :: is(r, *BinaryOpExpr) ==> (as(r, *BinaryOpExpr).Left == old(as(r, *BinaryOpExpr).Left) || (is(old(as(r, *BinaryOpExpr).Left), *NameExpr) && is(as(r, *BinaryOpExpr).Left, *FieldReferenceExpr))) && (as(r, *BinaryOpExpr).Right == old(as(r, *BinaryOpExpr).Right) || (is(old(as(r, *BinaryOpExpr).Right), *NameExpr) && is(as(r, *BinaryOpExpr).Right, *FieldReferenceExpr)))
 //@ define keptLists() Bool = forall r Ref :: is(r, *ListExpr) ==> (forall i Int :: 0 <= i && i < len(as(r, *ListExpr).List) ==> as(r, *ListExpr).List[i] == old(as(r, *ListExpr).List[i]) || (is(old(as(r, *ListExpr).List[i]), *NameExpr) && is(as(r, *ListExpr).List[i], *FieldReferenceExpr)))
+//@ define keptKeys() Bool = forall r Ref :: is(r, *RemoveStmt) ==> (forall i Int :: 0 <= i && i < len(as(r, *RemoveStmt).Keys) ==> as(r, *RemoveStmt).Keys[i] == old(as(r, *RemoveStmt).Keys[i]) || (is(old(as(r, *RemoveStmt).Keys[i]), *NameExpr) && is(as(r, *RemoveStmt).Keys[i], *FieldReferenceExpr)))
 //@ define keptArgs() Bool = forall r Ref :: is(r, *FunctionCallExpr) ==> (forall i Int :: 0 <= i && i < len(as(r, *FunctionCallExpr).Args) ==> as(r, *FunctionCallExpr).Args[i] == old(as(r, *FunctionCallExpr).Args[i]) || (is(old(as(r, *FunctionCallExpr).Args[i]), *NameExpr) && is(as(r, *FunctionCallExpr).Args[i], *FieldReferenceExpr)))
 //
 // Shape invariant of parsed trees: no node has a missing child.
 //@ define wfAST() Bool = forall r Ref :: (is(r, *BinaryOpExpr) ==> as(r, *BinaryOpExpr).Left != nil && as(r, *BinaryOpExpr).Right != nil) && (is(r, *NotExpr) ==> as(r, *NotExpr).Right != nil) && (is(r, *FieldAccessExpr) ==> as(r, *FieldAccessExpr).Left != nil && as(r, *FieldAccessExpr).FieldName != nil) && (is(r, *FunctionCallExpr) ==> as(r, *FunctionCallExpr).Name != nil && (forall i Int :: 0 <= i && i < len(as(r, *FunctionCallExpr).Args) ==> as(r, *FunctionCallExpr).Args[i] != nil)) && (is(r, *ListExpr) ==> (forall i Int :: 0 <= i && i < len(as(r, *ListExpr).List) ==> as(r, *ListExpr).List[i] != nil))
 //
+// usesKw(e, kw): the keyword kw (KeyKW / ValueKW) occurs in the expression e, looking through
+// operands, arguments, list items and both sides of a field access (definition by unfolding; a
+// name and the alias reference it may be rewritten to contain no keyword, so the definition does
+// not depend on the rewriting; kw_name is that consequence of the definition, stated separately
+// because it is needed for every element of a list at once). The statement forms that forbid a keyword set the corresponding
+// flag of the CheckCtx; clauses `nokey` / `novalue` say that a successful Check under such a flag
+// means the keyword occurs nowhere in the expression.
+//@ specfun usesKw(Int, Int) Bool
+//@ define anyKw(L []Expression, n Int, k Int) Bool = exists i Int :: 0 <= i && i < n && usesKw(L[i], k)
+//@ axiom kw_def(d Expression, k Int): usesKw(d, k) == ((is(d, *FieldExpr) && as(d, *FieldExpr).Field == k) || (is(d, *BinaryOpExpr) && (usesKw(as(d, *BinaryOpExpr).Left, k) || usesKw(as(d, *BinaryOpExpr).Right, k))) || (is(d, *NotExpr) && usesKw(as(d, *NotExpr).Right, k)) || (is(d, *FieldAccessExpr) && (usesKw(as(d, *FieldAccessExpr).Left, k) || usesKw(as(d, *FieldAccessExpr).FieldName, k))) || (is(d, *FunctionCallExpr) && anyKw(as(d, *FunctionCallExpr).Args, len(as(d, *FunctionCallExpr).Args), k)) || (is(d, *ListExpr) && anyKw(as(d, *ListExpr).List, len(as(d, *ListExpr).List), k)))
+//@ lemma kw_name(d Expression)
+//@   props C14
+//@   use kw_def(d, KeyKW)
+//@   use kw_def(d, ValueKW)
+//@   ensures is(d, *NameExpr) || is(d, *FieldReferenceExpr) ==> !usesKw(d, KeyKW) && !usesKw(d, ValueKW)
+//
+//@ define kwOK(x Expression, ctx *CheckCtx) Bool = (ctx.NotAllowKey ==> !usesKw(x, KeyKW)) && (ctx.NotAllowValue ==> !usesKw(x, ValueKW))
+//
 //@ iface (e Expression) Check(ctx *CheckCtx) (err error)
 //@   requires e != nil && ctx != nil
+//@   ensures[C14] nokw: err == nil ==> kwOK(e, ctx)
 //@   requires wf: wfAST()
 //@   ensures wf: wfAST()
 //@   assigns allof(BinaryOpExpr.Left), allof(BinaryOpExpr.Right), allelems(Expression), allof(chk)
@@ -44,6 +64,7 @@ package kvql
 //@   ensures ops: keptOps()
 //@   ensures lists: keptLists()
 //@   ensures args: keptArgs()
+//@   ensures keys: keptKeys()
 //@   ensures syntax: err != nil ==> is(err, *SyntaxError)
 //
 // Name lookup among the select fields.
@@ -149,6 +170,12 @@ package kvql
 // The Check methods. `deep`: a nil result means every operand has itself been checked (or is an
 // alias reference); `rule`: the operator's operand rule holds.
 //@ func (e *BinaryOpExpr) Check(ctx *CheckCtx) (err error) implements Expression.Check
+//@   use kw_def(e, KeyKW)
+//@   use kw_def(e, ValueKW)
+//@   use kw_def(e.Left, KeyKW)
+//@   use kw_def(e.Left, ValueKW)
+//@   use kw_def(e.Right, KeyKW)
+//@   use kw_def(e.Right, ValueKW)
 //@   props C14
 //@   ensures[C14] deep: err == nil ==> chkOrRef(e.Left) && chkOrRef(e.Right)
 //@   ensures[C14] notop: err == nil ==> e.Op != Not
@@ -157,32 +184,43 @@ package kvql
 //@   atreturn set chk(e) := ite(err == nil, true, chk(e))
 //
 //@ func (e *NotExpr) Check(ctx *CheckCtx) (err error) implements Expression.Check
+//@   use kw_def(e, KeyKW)
+//@   use kw_def(e, ValueKW)
 //@   props C14
 //@   ensures[C14] deep: err == nil ==> chkOrRef(e.Right)
 //@   ensures[C14] rule: err == nil ==> rtype(e.Right) == TBOOL
 //@   atreturn set chk(e) := ite(err == nil, true, chk(e))
 //
 //@ func (e *ListExpr) Check(ctx *CheckCtx) (err error) implements Expression.Check
+//@   use kw_def(e, KeyKW)
+//@   use kw_def(e, ValueKW)
+//@   use forall q Int :: kw_name(e.List[q])
 //@   props C14
 //@   ghost k Int
 //@   ensures[C14] deep: err == nil && 0 <= k && k < len(e.List) ==> chkOrRef(e.List[k])
 //@   ensures[C14] rule: err == nil ==> len(e.List) > 0 && (0 <= k && k < len(e.List) ==> rtype(e.List[k]) == rtype(e.List[0]))
 //@   atreturn set chk(e) := ite(err == nil, true, chk(e))
 //@   loop 0
-//@     invariant wfAST() && monoChk() && keptOps() && keptLists() && keptArgs()
+//@     invariant wfAST() && monoChk() && keptOps() && keptLists() && keptArgs() && keptKeys()
 //@     invariant 0 <= k && k <= rangeindex && k < len(e.List) ==> chkOrRef(e.List[k])
+//@     invariant[C14] kw: forall q Int :: 0 <= q && q <= rangeindex && q < len(e.List) ==> kwOK(old(e.List[q]), ctx)
 //@     use e.List[k]
 //@   loop 1
 //@     invariant 1 <= k && k <= rangeindex + 1 && k < len(e.List) ==> rtype(e.List[k]) == ftype
 //@     use rangeindex + 2
 //
 //@ func (e *FieldAccessExpr) Check(ctx *CheckCtx) (err error) implements Expression.Check
+//@   use kw_def(e, KeyKW)
+//@   use kw_def(e, ValueKW)
 //@   props C14
 //@   ensures[C14] deep: err == nil ==> chkOrRef(e.Left)
 //@   ensures[C14] rule: err == nil ==> rtype(e.Left) == TJSON || rtype(e.Left) == TLIST || is(e.Left, *FieldAccessExpr)
 //@   atreturn set chk(e) := ite(err == nil, true, chk(e))
 //
 //@ func (e *FunctionCallExpr) Check(ctx *CheckCtx) (err error) implements Expression.Check
+//@   use kw_def(e, KeyKW)
+//@   use kw_def(e, ValueKW)
+//@   use forall q Int :: kw_name(e.Args[q])
 //@   props C14
 //@   ghost k Int
 //@   ensures[C14] deep: err == nil && 0 <= k && k < len(e.Args) ==> chkOrRef(e.Args[k])
@@ -190,8 +228,9 @@ package kvql
 //@   ensures[C14] known: err == nil ==> fnKnown(lower(val(as(e.Name, *NameExpr).Data))) && fnArgsOK(lower(val(as(e.Name, *NameExpr).Data)), len(e.Args))
 //@   atreturn set chk(e) := ite(err == nil, true, chk(e))
 //@   loop 0
-//@     invariant wfAST() && monoChk() && keptOps() && keptLists() && keptArgs()
+//@     invariant wfAST() && monoChk() && keptOps() && keptLists() && keptArgs() && keptKeys()
 //@     invariant 0 <= k && k <= rangeindex && k < len(e.Args) ==> chkOrRef(e.Args[k])
+//@     invariant[C14] kw: forall q Int :: 0 <= q && q <= rangeindex && q < len(e.Args) ==> kwOK(old(e.Args[q]), ctx)
 //@     use e.Args[k]
 //
 //@ func (e *FunctionCallExpr) tryRewriteExpr(idx int, ctx *CheckCtx) (ret Expression, err error)
@@ -202,27 +241,101 @@ package kvql
 //@   ensures[C06] acyclic: err == nil && e.Args[idx] != old(e.Args[idx]) ==> !inDef(as(e.Args[idx], *FieldReferenceExpr).FieldExpr, e)
 //@   ensures syntax: err != nil ==> is(err, *SyntaxError)
 //@   ensures[C14] rewritten: e.Args[idx] == old(e.Args[idx]) || (is(old(e.Args[idx]), *NameExpr) && is(e.Args[idx], *FieldReferenceExpr) && fresh(e.Args[idx]))
+//@   ensures[C14] kwfree: !is(old(e.Args[idx]), *NameExpr) || (!usesKw(old(e.Args[idx]), KeyKW) && !usesKw(old(e.Args[idx]), ValueKW))
+//@   use kw_def(e.Args[idx], KeyKW)
+//@   use kw_def(e.Args[idx], ValueKW)
 //
 //@ func (e *FieldExpr) Check(ctx *CheckCtx) (err error) implements Expression.Check
+//@   use kw_def(e, KeyKW)
+//@   use kw_def(e, ValueKW)
 //@   props C14
 //@   ensures[C14] keyword: err == nil ==> !(e.Field == KeyKW && ctx.NotAllowKey) && !(e.Field == ValueKW && ctx.NotAllowValue)
 //@   atreturn set chk(e) := ite(err == nil, true, chk(e))
 //
 //@ func (e *StringExpr) Check(ctx *CheckCtx) (err error) implements Expression.Check
+//@   use kw_def(e, KeyKW)
+//@   use kw_def(e, ValueKW)
 //@   props C14
 //@   atreturn set chk(e) := ite(err == nil, true, chk(e))
 //@ func (e *NameExpr) Check(ctx *CheckCtx) (err error) implements Expression.Check
+//@   use kw_def(e, KeyKW)
+//@   use kw_def(e, ValueKW)
 //@   props C14
 //@   atreturn set chk(e) := ite(err == nil, true, chk(e))
 //@ func (e *FloatExpr) Check(ctx *CheckCtx) (err error) implements Expression.Check
+//@   use kw_def(e, KeyKW)
+//@   use kw_def(e, ValueKW)
 //@   props C14
 //@   atreturn set chk(e) := ite(err == nil, true, chk(e))
 //@ func (e *NumberExpr) Check(ctx *CheckCtx) (err error) implements Expression.Check
+//@   use kw_def(e, KeyKW)
+//@   use kw_def(e, ValueKW)
 //@   props C14
 //@   atreturn set chk(e) := ite(err == nil, true, chk(e))
 //@ func (e *BoolExpr) Check(ctx *CheckCtx) (err error) implements Expression.Check
+//@   use kw_def(e, KeyKW)
+//@   use kw_def(e, ValueKW)
 //@   props C14
 //@   atreturn set chk(e) := ite(err == nil, true, chk(e))
 //@ func (e *FieldReferenceExpr) Check(ctx *CheckCtx) (err error) implements Expression.Check
+//@   use kw_def(e, KeyKW)
+//@   use kw_def(e, ValueKW)
 //@   props C14
 //@   atreturn set chk(e) := ite(err == nil, true, chk(e))
+//
+// Statement validators (statement.go): which keywords the statement form allows, and the kinds of
+// the key / value expressions. PUT: a pair's key expression may use neither keyword (`key` stands
+// for that very key - accepted on the pinned tree, defect D30, repaired), its value expression may
+// use `key` only; REMOVE: neither keyword (the flags come from parsePut / parseRemove).
+//@ define okKV(x Expression) Bool = rtype(x) == TSTR || rtype(x) == TNUMBER
+//
+//@ func (s *PutStmt) validateKVPair(kv *PutKVPair, ctx *CheckCtx) (err error)
+//@   props C14
+//@   requires kv != nil && kv.Key != nil && kv.Value != nil && ctx != nil
+//@   requires wf: wfAST()
+//@   ensures wf: wfAST()
+//@   assigns allof(BinaryOpExpr.Left), allof(BinaryOpExpr.Right), allelems(Expression), allof(chk)
+//@   ensures mono: monoChk()
+//@   ensures[C14] key: err == nil ==> chk(kv.Key) && okKV(kv.Key) && !usesKw(kv.Key, KeyKW) && (ctx.NotAllowValue ==> !usesKw(kv.Key, ValueKW))
+//@   ensures[C14] value: err == nil ==> chk(kv.Value) && okKV(kv.Value) && kwOK(kv.Value, ctx)
+//@   ensures syntax: err != nil ==> is(err, *SyntaxError)
+//
+//@ func (s *PutStmt) Validate(ctx *CheckCtx) (err error)
+//@   props C14
+//@   ghost k Int
+//@   requires s != nil && ctx != nil && (forall i Int :: 0 <= i && i < len(s.KVPairs) ==> s.KVPairs[i] != nil && s.KVPairs[i].Key != nil && s.KVPairs[i].Value != nil)
+//@   requires wf: wfAST()
+//@   ensures wf: wfAST()
+//@   assigns allof(BinaryOpExpr.Left), allof(BinaryOpExpr.Right), allelems(Expression), allof(chk)
+//@   ensures[C14] pairs: err == nil && 0 <= k && k < len(s.KVPairs) ==> chk(s.KVPairs[k].Key) && chk(s.KVPairs[k].Value) && okKV(s.KVPairs[k].Key) && okKV(s.KVPairs[k].Value) && !usesKw(s.KVPairs[k].Key, KeyKW) && (ctx.NotAllowValue ==> !usesKw(s.KVPairs[k].Key, ValueKW) && !usesKw(s.KVPairs[k].Value, ValueKW))
+//@   ensures syntax: err != nil ==> is(err, *SyntaxError)
+//@   loop 0 (kv)
+//@     invariant wfAST() && monoChk()
+//@     invariant[C14] sofar: 0 <= k && k <= rangeindex && k < len(s.KVPairs) ==> chk(s.KVPairs[k].Key) && chk(s.KVPairs[k].Value) && okKV(s.KVPairs[k].Key) && okKV(s.KVPairs[k].Value) && !usesKw(s.KVPairs[k].Key, KeyKW) && (ctx.NotAllowValue ==> !usesKw(s.KVPairs[k].Key, ValueKW) && !usesKw(s.KVPairs[k].Value, ValueKW))
+//@     use s.KVPairs[k].Key
+//@     use s.KVPairs[k].Value
+//
+//@ func (s *RemoveStmt) Validate(ctx *CheckCtx) (err error)
+//@   props C14
+//@   requires s != nil && ctx != nil && (forall i Int :: 0 <= i && i < len(s.Keys) ==> s.Keys[i] != nil)
+//@   requires wf: wfAST()
+//@   ensures wf: wfAST()
+//@   assigns allof(BinaryOpExpr.Left), allof(BinaryOpExpr.Right), allelems(Expression), allof(chk)
+//@   ghost k Int
+//@   ensures[C14] keys: err == nil && 0 <= k && k < len(s.Keys) ==> chkOrRef(s.Keys[k]) && kwOK(s.Keys[k], ctx)
+//@   ensures syntax: err != nil ==> is(err, *SyntaxError)
+//@   loop 0 (expr)
+//@     invariant wfAST() && monoChk() && keptKeys()
+//@     invariant[C14] sofar: 0 <= k && k <= rangeindex && k < len(s.Keys) ==> chkOrRef(s.Keys[k])
+//@     invariant[C14] sofar2: 0 <= k && k <= rangeindex && k < len(s.Keys) ==> kwOK(s.Keys[k], ctx)
+//@     use s.Keys[k]
+//@     use forall q Int :: kw_name(s.Keys[q])
+//
+//@ func (s *DeleteStmt) Validate(ctx *CheckCtx) (err error)
+//@   props C14
+//@   requires s != nil && s.Where != nil && s.Where.Expr != nil && ctx != nil
+//@   requires wf: wfAST()
+//@   ensures wf: wfAST()
+//@   assigns allof(BinaryOpExpr.Left), allof(BinaryOpExpr.Right), allelems(Expression), allof(chk)
+//@   ensures[C14] where: err == nil ==> chk(s.Where.Expr) && kwOK(s.Where.Expr, ctx)
+//@   ensures syntax: err != nil ==> is(err, *SyntaxError)
